@@ -66,7 +66,7 @@ def run(ck):
     budget = DEADLINE[ck.tier]
     for tag, alpha in TIERS[ck.tier]:
         left = max(30, int(budget - (vlib.time.time() - ck.t0)))
-        ck.enum(exe, part_args(alpha, tag), tag, batch=250, deadline_s=left, timeout_ms=120000, jobs=jobs)
+        ck.enum(exe, part_args(alpha, tag), tag, batch=100, deadline_s=left, timeout_ms=120000, jobs=jobs)
         sp = os.path.join(vlib.OUT, "C01-%s-stats.json" % tag)
         if os.path.exists(sp):
             for f in json.load(open(sp))["forms"]:
